@@ -68,6 +68,28 @@ impl RegSpi {
         f.bad = false;
         RegSpi
     }
+    /// concrete chip for native replays of generated harnesses: every register holds `fill`,
+    /// RegOpMode says LoRa / standby (both drivers' start-up state)
+    pub(crate) fn concrete(fill: u8) -> Self {
+        let f = rf();
+        f.init_lo = [fill; 64];
+        f.init_hi = [fill; 64];
+        f.init_lo[1] = 0x81;
+        f.lo = f.init_lo;
+        f.hi = f.init_hi;
+        f.fifo_n = 0;
+        f.probe = (fill as usize) % 200;
+        f.irq_cleared = 0;
+        f.n_tx = 0;
+        f.bad = false;
+        RegSpi
+    }
+    /// set a register's prior content (replays: make a prior-state assumption true)
+    pub(crate) fn poke(addr: usize, mask: u8, val: u8) {
+        let f = rf();
+        let v = (f.init(addr) & !mask) | (val & mask);
+        if addr < 64 { f.init_lo[addr] = v; f.lo[addr] = v; } else { f.init_hi[addr - 64] = v; f.hi[addr - 64] = v; }
+    }
     fn store(addr: usize, v: u8) {
         let f = rf();
         if addr == 0x12 {
